@@ -7,6 +7,7 @@ import (
 	"os"
 	"path/filepath"
 	"strings"
+	"unicode/utf8"
 
 	"github.com/edutko/decipher/internal/file"
 )
@@ -105,13 +106,32 @@ func inspectStdin() {
 
 func printInfo(info file.Info, indent int) {
 	indentStr := strings.Repeat(" ", indent)
-	fmt.Printf("%s%s\n", indentStr, info.Description)
+	fmt.Printf("%s%s\n", indentStr, sanitize(info.Description))
 	for _, a := range info.Attributes {
-		fmt.Printf("%s  %s: %s\n", indentStr, a.Name, a.Value)
+		fmt.Printf("%s  %s: %s\n", indentStr, sanitize(a.Name), sanitize(a.Value))
 	}
 	for _, child := range info.Children {
 		printInfo(child, indent+2)
 	}
+}
+
+// sanitize escapes control characters (C0, DEL, C1) and bytes that are not valid UTF-8 as \xNN so that
+// text taken from the inspected file cannot break the one-line-per-item layout or drive the terminal.
+func sanitize(s string) string {
+	var b strings.Builder
+	for i := 0; i < len(s); {
+		r, w := utf8.DecodeRuneInString(s[i:])
+		switch {
+		case r == utf8.RuneError && w <= 1:
+			fmt.Fprintf(&b, "\\x%02x", s[i])
+		case r < 0x20 || r == 0x7f || (r >= 0x80 && r <= 0x9f):
+			fmt.Fprintf(&b, "\\x%02x", r)
+		default:
+			b.WriteString(s[i : i+w])
+		}
+		i += w
+	}
+	return b.String()
 }
 
 var Version = "0.0.0"
